@@ -545,6 +545,46 @@ def impl_unit(cu, is_tu, cap):
     return res
 
 
+def probe_random_access_parents(le, dasz, info, abbrev, types, secs, out):
+    """On a FRESH object, without any sequential walk: for entries X that own children (a content-derived handful per
+    unit), drain X's children reached by random access, then reach X's NEXT SIBLING Y by random access and ask for its
+    parent.  It must be the parent the sequential walk reported (which is compared with the description).  A seeded
+    shortcut in the ancestor search took the entry laid out before Y — X's closing null, whose parent is X — and answered
+    X.  Mismatch -> AssertionError (reported through the unit's outcome); failures of the probe itself are ignored."""
+    di = mk_dwarfinfo(le, dasz, info, abbrev, types, secs)
+    for key, it in (('info', di.iter_CUs), ('types', di.iter_TUs)):
+        walked = out[key]
+        if walked['end'] is not None:
+            continue
+        try:
+            units = list(it())
+        except Exception:       # noqa: BLE001
+            continue
+        for cu, w in zip(units, walked['units']):
+            if 'ok' not in w['dies']:
+                continue
+            canons = w['dies']['ok']
+            parent = {c[0]: c[6] for c in canons}
+            owners = [c for c in canons if c[4] and c[2] != 0]
+            for X in owners[:5]:
+                sibs = [c[0] for c in canons if c[6] == X[6] and c[2] != 0]
+                later = [o for o in sibs if o > X[0]]
+                if not later:
+                    continue
+                yoff = later[0]
+                try:
+                    x = cu.get_DIE_from_refaddr(X[0])
+                    capped(x.iter_children(), 2 * len(canons) + 8)
+                    y = cu.get_DIE_from_refaddr(yoff)
+                    p = y.get_parent()
+                    got = None if p is None else p.offset
+                except Exception:       # noqa: BLE001
+                    continue
+                if got != parent[yoff]:
+                    raise AssertionError('random access: parent of entry %d is reported as %r after draining the children of its '
+                                         'previous sibling %d; the sequential walk reports %r' % (yoff, got, X[0], parent[yoff]))
+
+
 def impl_world(le, dasz, info, abbrev, types, secs):
     di = mk_dwarfinfo(le, dasz, info, abbrev, types, secs)
     out = {}
@@ -557,6 +597,10 @@ def impl_world(le, dasz, info, abbrev, types, secs):
         except Exception as e:      # noqa: BLE001
             end = classify_exception(e)
         out[key] = {'units': units, 'end': end}
+    try:
+        probe_random_access_parents(le, dasz, info, abbrev, types, secs, out)
+    except AssertionError as e:
+        out['info'] = dict(out['info'], end='assertion: %s' % e)
     return out
 
 
